@@ -41,10 +41,12 @@ cpdef Data _br_term_data(Data A, double[:, ::1] spectrum,
     AS = _data.multiply(A, S)
     AST = _data.multiply(A, _data.transpose(S))
 
-    out = _data.kron(AST, _data.transpose(A))
-    out = _data.add(out, _data.kron(A, _data.transpose(AS)))
-    out = _data.sub(out, _data.kron(I, _data.transpose(_data.matmul(AS, A))))
-    out = _data.sub(out, _data.kron(_data.matmul(A, AST), I))
+    # Superoperators act on column-stacked operators:
+    # ``kron(X.T, Y) @ vec(rho) == vec(Y @ rho @ X)``.
+    out = _data.kron(_data.transpose(A), AST)
+    out = _data.add(out, _data.kron(_data.transpose(AS), A))
+    out = _data.sub(out, _data.kron(_data.transpose(_data.matmul(AS, A)), I))
+    out = _data.sub(out, _data.kron(I, _data.matmul(A, AST)))
 
     if cutoff == np.inf:
         return out
@@ -58,7 +60,7 @@ cpdef Data _br_term_data(Data A, double[:, ::1] spectrum,
             for c in range(nrows):
                 for d in range(nrows):
                     if fabs(skew[a, b] - skew[c, d]) < cutoff:
-                        cutoff_arr[a * nrows + b, c * nrows + d] = 1.
+                        cutoff_arr[b * nrows + a, d * nrows + c] = 1.
     C = _data.to(cls, _data.Dense(cutoff_arr, copy=False))
     return _data.multiply(out, C)
 
@@ -111,7 +113,7 @@ cpdef Dense _br_term_dense(Data A, double[:, ::1] spectrum,
                             elem = elem - 0.5 * ac_term[d, b]
                         if b == d:
                             elem = elem - 0.5 * bd_term[a, c]
-                        out_array[a * nrows + b, c * nrows + d] = elem
+                        out_array[b * nrows + a, d * nrows + c] = elem
     return out
 
 
@@ -171,8 +173,8 @@ cpdef CSR _br_term_sparse(Data A, double[:, :] spectrum,
                         if b == d:
                             elem -= 0.5 * bd_term[a, c]
                         if elem != 0:
-                            coo_rows.push_back(a * nrows + b)
-                            coo_cols.push_back(c * nrows + d)
+                            coo_rows.push_back(b * nrows + a)
+                            coo_cols.push_back(d * nrows + c)
                             coo_data.push_back(elem)
                     elif dskew >= cutoff:
                         break
@@ -355,10 +357,12 @@ cpdef Data _br_cterm_data(Data A, Data B, double[:, ::1] spectrum,
     S = _data.to(cls, _data.mul(_data.Dense(spectrum), 0.5))
     I = _data.identity[cls](nrows)
 
-    P1 = _data.kron(_data.multiply(B, _data.transpose(S)), _data.transpose(A))
-    P2 = _data.kron(B, _data.transpose(_data.multiply(A, S)))
-    P3 = _data.kron(I, _data.transpose(_data.matmul(_data.multiply(A, S), B)))
-    P4 = _data.kron(_data.matmul(A, _data.multiply(B, _data.transpose(S))), I)
+    # Superoperators act on column-stacked operators:
+    # ``kron(X.T, Y) @ vec(rho) == vec(Y @ rho @ X)``.
+    P1 = _data.kron(_data.transpose(A), _data.multiply(B, _data.transpose(S)))
+    P2 = _data.kron(_data.transpose(_data.multiply(A, S)), B)
+    P3 = _data.kron(_data.transpose(_data.matmul(_data.multiply(A, S), B)), I)
+    P4 = _data.kron(I, _data.matmul(A, _data.multiply(B, _data.transpose(S))))
 
     out = _data.add(_data.sub(P1, P3), _data.sub(P2, P4))
 
@@ -374,7 +378,7 @@ cpdef Data _br_cterm_data(Data A, Data B, double[:, ::1] spectrum,
             for c in range(nrows):
                 for d in range(nrows):
                     if fabs(skew[a, b] - skew[c, d]) < cutoff:
-                        cutoff_arr[a * nrows + b, c * nrows + d] = 1.
+                        cutoff_arr[b * nrows + a, d * nrows + c] = 1.
     C = _data.to(cls, _data.Dense(cutoff_arr, copy=False))
     return _data.multiply(out, C)
 
@@ -431,7 +435,7 @@ cpdef Dense _br_cterm_dense(Data A, Data B, double[:, ::1] spectrum,
                             elem = elem - ac_term[d, b]
                         if b == d:
                             elem = elem - bd_term[a, c]
-                        out_array[a * nrows + b, c * nrows + d] = elem * 0.5
+                        out_array[b * nrows + a, d * nrows + c] = elem * 0.5
     return out
 
 
@@ -496,8 +500,8 @@ cpdef CSR _br_cterm_sparse(Data A, Data B, double[:, :] spectrum,
                         if b == d:
                             elem -= 0.5 * bd_term[a, c]
                         if elem != 0:
-                            coo_rows.push_back(a * nrows + b)
-                            coo_cols.push_back(c * nrows + d)
+                            coo_rows.push_back(b * nrows + a)
+                            coo_cols.push_back(d * nrows + c)
                             coo_data.push_back(elem)
                     elif dskew >= cutoff:
                         break
